@@ -80,31 +80,31 @@ def sha(path):
 
 # --------------------------------------------------------------------------- tools
 
-def build_translator():
-    """(Re)build verif-extract from /verif/extract; returns (ok, log)."""
-    out = os.path.join(WORK, "bin", "verif-extract")
+def build_translator(name="consts"):
+    """(Re)build the translator program /verif/extract/<name>/ (own Go module, stdlib only)."""
+    out = os.path.join(WORK, "bin", "verif-extract-" + name)
     os.makedirs(os.path.dirname(out), exist_ok=True)
-    with Lock("translator"):
-        srcs = glob.glob(os.path.join(VERIF, "extract", "*.go"))
+    with Lock("translator-" + name):
+        srcs = glob.glob(os.path.join(VERIF, "extract", name, "*.go"))
         if os.path.exists(out) and all(os.path.getmtime(s) <= os.path.getmtime(out) for s in srcs):
             return True, ""
-        rc, o = sh([GO, "build", "-o", out, "."], cwd=os.path.join(VERIF, "extract"), env=GOENV, timeout=600)
+        rc, o = sh([GO, "build", "-o", out, "."], cwd=os.path.join(VERIF, "extract", name), env=GOENV, timeout=600)
         return rc == 0, o
 
 
-def translate(cmd, *args):
-    """Run a translator sub-command against /repo's working tree."""
-    ok, o = build_translator()
+def translate(name, *args):
+    """Run translator program <name> with args against /repo's working tree."""
+    ok, o = build_translator(name)
     if not ok:
         return False, "translator build failed:\n" + o
-    rc, o = sh([os.path.join(WORK, "bin", "verif-extract"), cmd] + list(args), timeout=300)
+    rc, o = sh([os.path.join(WORK, "bin", "verif-extract-" + name)] + list(args), timeout=300)
     return rc == 0, o
 
 
 def gen_base():
     """Regenerate coq/base/Consts.v from /repo (written only when its content changes)."""
     with Lock("gen"):
-        return translate("consts", REPO, os.path.join(VERIF, "coq", "base", "Consts.v"))
+        return translate("consts", "consts", REPO, os.path.join(VERIF, "coq", "base", "Consts.v"))
 
 
 # --------------------------------------------------------------------------- Coq
@@ -253,27 +253,35 @@ def ocaml_build(engine, extracted, driver, exe):
 
 # --------------------------------------------------------------------------- Go harness
 
-def overlay_file():
-    """Overlay: add harness/*.go to package kcp, drop the repository's own *_test.go."""
+def overlay_file(files=None):
+    """Overlay: add harness files to package kcp, drop the repository's own *_test.go.
+    `files`: basenames under harness/ (common_test.go is always included); None = all."""
     repl = {}
-    for f in sorted(glob.glob(os.path.join(VERIF, "harness", "*.go"))):
+    allf = sorted(glob.glob(os.path.join(VERIF, "harness", "*.go")))
+    if files is not None:
+        want = set(files) | {"common_test.go"}
+        allf = [f for f in allf if os.path.basename(f) in want]
+        missing = want - {os.path.basename(f) for f in allf}
+        if missing:
+            raise RuntimeError("harness files missing: %s" % sorted(missing))
+    for f in allf:
         repl[os.path.join(REPO, "zz_verif_" + os.path.basename(f))] = f
     for f in glob.glob(os.path.join(REPO, "*_test.go")):
         repl[f] = ""
     os.makedirs(WORK, exist_ok=True)
-    p = os.path.join(WORK, "overlay.json")
     content = json.dumps({"Replace": repl}, indent=1, sort_keys=True)
+    p = os.path.join(WORK, "overlay-%s.json" % hashlib.sha256(content.encode()).hexdigest()[:12])
     with Lock("overlay"):
         if not os.path.exists(p) or open(p).read() != content:
             open(p, "w").write(content)
     return p
 
 
-def go_harness(run_regex, env=None, timeout=1500, race=False, extra=None):
+def go_harness(run_regex, env=None, timeout=1500, race=False, extra=None, files=None):
     """Run overlay-injected tests of package kcp built from /repo's working tree."""
     e = dict(GOENV)
     e.update(env or {})
-    cmd = [GO, "test", "-tags", "verif", "-overlay", overlay_file(), "-vet=off", "-count=1",
+    cmd = [GO, "test", "-tags", "verif", "-overlay", overlay_file(files), "-vet=off", "-count=1",
            "-timeout", "%ds" % timeout, "-run", run_regex]
     if race:
         cmd.append("-race")
@@ -435,14 +443,14 @@ def parse_kv(text, prefix):
 
 # --------------------------------------------------------------------------- common flow
 
-def harness_report(ctx, test_regex, report_name, env=None, timeout=1500, race=False):
+def harness_report(ctx, test_regex, report_name, env=None, timeout=1500, race=False, files=None, extra=None):
     """Run a harness test on the real code; collect its report (monitor violations included)."""
     e = ctx.env()
     e.update(env or {})
     rp = os.path.join(e["VERIF_OUT"], report_name)
     if os.path.exists(rp):
         os.remove(rp)
-    rc, o = go_harness(test_regex, env=e, timeout=timeout, race=race)
+    rc, o = go_harness(test_regex, env=e, timeout=timeout, race=race, files=files, extra=extra)
     rep = None
     if os.path.exists(rp):
         try:
